@@ -760,6 +760,12 @@ def rule_r19(prog, res):
     res.floor('R19', 'root writes in XmlDocument.serialize', n, 3)
 
 
+def rule_r20(prog, res):
+    res.share('R20', 'a nil message is expanded into missing members only '
+              'for the body styles that have members (C18-R7)', 'C18',
+              c18.rule_r7, prog, Result)
+
+
 def run(prog, res, tier):
     res.run_rule(rule_shared2, prog, res)
     res.run_rule(rule_r1, prog, res)
@@ -778,6 +784,7 @@ def run(prog, res, tier):
     res.run_rule(rule_r17, prog, res)
     res.run_rule(rule_r18, prog, res)
     res.run_rule(rule_r19, prog, res)
+    res.run_rule(rule_r20, prog, res)
 
 
 _X = 'spyne/protocol/xml.py'
